@@ -8,13 +8,14 @@ TB_COMMON = [
 
 HARNESSES = {
     "race": {
+        "kind": "race",
         "module": "grpcgcp", "pkg": ".", "test": "TestVerifRace.*",
         "files": ["harness/grpcgcp/zz_verif_race_test.go", "harness/grpcgcp/zz_verif_gme_test.go", "harness/grpcgcp/zz_verif_pool_test.go"],
         "extra_files": {"multiendpoint/zz_verif_dump.go": "harness/multiendpoint/zz_verif_dump.go"},
         "buildflags": ["-race"],
         "corpus_glob": "*.ops", "corpus_dirs": [],
         "episode_start": r"^race ",
-        "tiers": {"quick": {"episodes": 1}, "thorough": {"episodes": 1, "seeds": 6}},
+        "tiers": {"quick": {"episodes": 1, "ms": 1200}, "thorough": {"episodes": 1, "ms": 20000}},
     },
     "gme": {
         "module": "grpcgcp", "pkg": ".", "test": "TestVerifGME",
@@ -144,7 +145,25 @@ GME_TB = TB_COMMON + [
 def gme_thms(names):
     return [("GcpVerif.Proofs.GME", "GcpVerif.GME." + n) for n in names]
 
+SYNC_TB = TB_COMMON + [
+    "tools/extract/locks.go (go/parser, no type information): the must-hold lockset of every access to a guarded field, read/write/atomic classification, entry-point kinds (balancer callbacks serialised; everything else concurrent), may-hold sets at Lock() sites; receivers are resolved by spelling (gb, p, gme, me, cs, ref/scRef, mc), guarded fields by name; fail-closed (an unknown construct shrinks the lockset)",
+    "abstract mutex per owner type (gb.mu, picker.mu, ref.mu, gme.mu, me.mu, cs.mu): sound when an instance mutex guards fields of the same object",
+    "not tracked (frozen after initialisation, published to pickers through cc.UpdateState): gcpBalancer.cfg / methodCfg / unresponsiveDetection / log; gcpPicker.scRefs (immutable after construction); monitoredConn fields",
+    "write-once publication exemption for gcpClientStream.ClientStream (written only while nil under cs.mu - AST-checked -, unlocked reads only after a locked region saw it non-nil)",
+    "sync.Mutex / sync.RWMutex mutual exclusion is the hypothesis `Excl` of locksetOK_sound; the Go memory model below that is trusted",
+    "the race-detector stress run is the search for a concrete race, not the proof",
+]
+
+def pool_prop_plus(thms, extra, extra_assumptions=()):
+    d = pool_prop(thms, extra_assumptions)
+    d["theorems"] = d["theorems"] + extra
+    return d
+
 PROPS = {
+    "C10": {"harnesses": ["race"], "lake_targets": ["GcpVerif"],
+            "theorems": [("GcpVerif.Proofs.Sync", "GcpVerif.Sync." + n) for n in ["locksetOK_sound", "c10_lockset", "once_side_condition"]],
+            "leanchecker": ["GcpVerif.Proofs.Sync"], "trusted_base": SYNC_TB,
+            "assumptions": ["soundness of the AST extraction (trusted)", "balancer callbacks are serialised by gRPC"]},
     "C15": {"harnesses": ["gme"], "lake_targets": ["GcpVerif"],
             "theorems": gme_thms(["rpc_routes_current", "pickME_known", "pickME_unknown", "pickME_no_name", "pools_exact_after_update", "only_missing_dialled"]),
             "leanchecker": ["GcpVerif.Proofs.GME"], "trusted_base": GME_TB,
@@ -194,7 +213,7 @@ PROPS = {
     "C03": pool_prop(["growth_only_when_saturated", "at_max_places_anyway", "below_watermark_places"], ["size bound: minSize <= maxSize and no Shutdown report for a current pool member (known finding K6)"]),
     "C04": pool_prop([]),
     "C05": pool_prop([]),
-    "C06": pool_prop([], ["wall-clock bounds are observed by the harness watchdog (3 s per call), not proved"]),
+    "C06": pool_prop_plus([], [("GcpVerif.Proofs.Sync", "GcpVerif.Sync.c06_no_self_acquire"), ("GcpVerif.Proofs.Sync", "GcpVerif.Sync.c06_order_acyclic")], ["wall-clock bounds are observed by the harness watchdog (3 s per call), not proved"]),
     "C07": pool_prop(["disabled_never_refreshes", "response_resets", "isResponse_iff", "stale_call_ignored", "refresh_trigger", "window_exponential", "refresh_once"], ["unresponsive_detection_ms * 2^k < 2^32 (the Go code computes the window in uint32; known finding K2)"]),
     "C08": pool_prop(["fallback_sticky", "fallback_new", "bound_ready_home", "lookup_preserves_binding"]),
     "C09": pool_prop(["rr_next_slot", "rrSlot_succ"], ["fairness: the cursor does not pass 2^32-1 inside the window unless n divides 2^32 (known finding K1); no Shutdown report for a pool member"]),
